@@ -9,7 +9,13 @@
      ecatfull <mm> <shape3> <nfr> <w> <fmap> <gap>
      minc <shape> <nscales> <ix>      mincfull <shape> <nscales>
      reshape <shape> <newshape>
-   Result: ok <shape> <elem indices> <factor indices> | err <enum> *)
+   Result: ok <shape> <elem indices> <factor indices> | err <enum>
+   Bit-exact element arithmetic (ModelS.v).  dtype tokens: I<signed 0|1>:<bits> | F<0..3> (float16/32/64/longdouble);
+   floats: z0 z1 (+-0) | i0 i1 (+-inf) | n (NaN) | f<s>:<m>:<e>; requested dtype: - | 0..3
+     scl <disk dtype> <slope dtype> <slope> <inter dtype> <inter> <req> <n> <raw>*   -> ok <dtype> <value>* | err overflow
+     mne <disk dtype> <dmin> <dmax> <imin> <imax> <n> <raw>*
+     afe <disk dtype> <factor> <n> <raw>*      pre <disk dtype> <slope> <inter> <n> <raw>*      ece <disk dtype> <calib> <sfac> <n> <raw>*
+*)
 let optz s = if s = "_" then None else Some (z_of_string s)
 let parse_sl s = match String.split_on_char ':' s with
   | [a; b; c] -> { s_start = optz a; s_stop = optz b; s_step = optz c }
@@ -39,6 +45,40 @@ let file_for off w n =
 let zrange n = zseq n
 let last l = List.nth l (List.length l - 1)
 let nat_of_z x = nat_of_int (int_of_z x)
+(* ---- float layer plumbing (same text forms as the C02 driver) *)
+let sf_of_string s : spec_float =
+  match s with
+  | "z0" -> S754_zero false | "z1" -> S754_zero true
+  | "i0" -> S754_infinity false | "i1" -> S754_infinity true
+  | "n" -> S754_nan
+  | _ ->
+    (match String.split_on_char ':' (String.sub s 1 (String.length s - 1)) with
+     | [sg; m; e] -> (match z_of_string m with
+         | Zpos p -> S754_finite (sg = "1", p, z_of_string e)
+         | _ -> failwith "bad mantissa")
+     | _ -> failwith "bad float")
+let string_of_sf (x : spec_float) : string =
+  match x with
+  | S754_zero s -> if s then "z1" else "z0"
+  | S754_infinity s -> if s then "i1" else "i0"
+  | S754_nan -> "n"
+  | S754_finite (s, m, e) -> "f" ^ (if s then "1" else "0") ^ ":" ^ string_of_z (Zpos m) ^ ":" ^ string_of_z e
+let fid_i s = match s with "0" -> K16 | "1" -> K32 | "2" -> K64 | _ -> K80
+let string_of_fid = function K16 -> "0" | K32 -> "1" | K64 -> "2" | K80 -> "3"
+let sdt_of_string s =
+  if s.[0] = 'F' then DF (fid_i (String.sub s 1 (String.length s - 1)))
+  else (match String.split_on_char ':' (String.sub s 1 (String.length s - 1)) with
+      | [sg; w] -> DI { isigned = (sg = "1"); iwidth = z_of_string w }
+      | _ -> failwith "bad dtype")
+let string_of_sdt = function
+  | DF k -> "F" ^ string_of_fid k
+  | DI t -> "I" ^ (if t.isigned then "1" else "0") ^ ":" ^ string_of_z t.iwidth
+let sval_of_string d s = match d with DI _ -> VI (z_of_string s) | DF _ -> VF (sf_of_string s)
+let string_of_sval = function VI z -> string_of_z z | VF x -> string_of_sf x
+let vals d n rest = List.map (sval_of_string d) (take_n (int_of_string n) rest)
+let show_dv l = match l with
+  | [] -> "ok -"
+  | (dt, _) :: _ -> "ok " ^ string_of_sdt dt ^ " " ^ String.concat " " (List.map (fun (_, v) -> string_of_sval v) l)
 let handle op args = match op, args with
   | "ap", [mm; o; shape; w; off; ix] ->
     let shape = zlist_of_string shape and w = z_of_string w and off = z_of_string off in
@@ -78,5 +118,21 @@ let handle op args = match op, args with
   | "reshape", [shape; ns] ->
     (match ap_reshape (zlist_of_string shape) (zlist_of_string ns) with
      | Ok s -> "ok " ^ string_of_zlist s | Err e -> "err " ^ str_err e)
+  | "scl", d :: ks :: sl :: ki :: it :: req :: n :: rest ->
+    let d = sdt_of_string d in
+    let slope = { f_k = fid_i ks; f_v = sf_of_string sl } and inter = { f_k = fid_i ki; f_v = sf_of_string it } in
+    let req = if req = "-" then None else Some (fid_i req) in
+    (match get_scaled d slope inter req (vals d n rest) with
+     | Some (dt, l) -> "ok " ^ string_of_sdt dt ^ " " ^ String.concat " " (List.map string_of_sval l)
+     | None -> "err overflow")
+  | "afe", d :: f :: n :: rest ->
+    let d = sdt_of_string d in show_dv (List.map (afni_elem d (sf_of_string f)) (vals d n rest))
+  | "pre", d :: sl :: it :: n :: rest ->
+    let d = sdt_of_string d in show_dv (List.map (parrec_elem d (sf_of_string sl) (sf_of_string it)) (vals d n rest))
+  | "mne", d :: dmin :: dmax :: imin :: imax :: n :: rest ->
+    let d = sdt_of_string d in
+    show_dv (List.map (minc_elem d (sf_of_string dmin) (sf_of_string dmax) (sf_of_string imin) (sf_of_string imax)) (vals d n rest))
+  | "ece", d :: c :: f :: n :: rest ->
+    let d = sdt_of_string d in show_dv (List.map (ecat_elem d (sf_of_string c) (sf_of_string f)) (vals d n rest))
   | _ -> "err driver:badop"
 let () = run_lines handle
